@@ -419,6 +419,77 @@ def check_helpers(acc):
     acc.sample({'helper': 'input_iterator_with_fixed_sum', 'size': 3, 'k': 1, 'negations': [True, False, False]})
 
 
+def check_sym4(acc, lo, hi):
+    """All 65536 functions of four inputs: the symmetry / constancy / monotonicity queries of the three
+    representations (the other queries are covered for n<=3; the thorough tier runs everything for n=4)."""
+    from cirbo.core.python_function import PyFunction
+    from cirbo.core.truth_table import TruthTable
+
+    n = 4
+    for t in range(lo, hi):
+        rows = rows_of(t, n)
+        acc.states += 1
+        acc.traces += 1
+        want_sym = d_symmetric_multi([t], n)
+        want_const = d_const(t, n)
+        want_mono = d_monotone(t, n, False)
+        reps = {
+            'TruthTable': TruthTable([rows]),
+            'PyFunction': PyFunction(lambda xs, rows=rows: [rows[int(''.join('1' if b else '0' for b in xs), 2)]], input_size=n),
+            'Circuit(mux)': space.build_from_net(c19.mux_net([rows], n, 'M_')),
+        }
+        for name, f in reps.items():
+            acc.transitions += 4
+            case = lambda q: {'n': n, 'tables': [refmodel.tt_str(t, n)], 'query': q, 'family': 'sym4'}  # noqa: E731
+            try:
+                got = (f.is_symmetric_at(0), f.is_symmetric(), f.is_constant_at(0), f.is_monotone_at(0))
+            except Exception as e:  # noqa: BLE001
+                acc.violation(f'{name}/raises-{type(e).__name__}', case('symmetry'), repr(e))
+                continue
+            if got != (want_sym, want_sym, want_const, want_mono):
+                acc.violation(f'{name}.is_symmetric_at/wrong-answer' if got[0] != want_sym else f'{name}/wrong-answer', case('is_symmetric_at/is_symmetric/is_constant_at/is_monotone_at'),
+                              f'got {got} expected {(want_sym, want_sym, want_const, want_mono)}', {'representation': name.split('(')[0]})
+        acc.outcome('fn', (4, 1, want_const, want_sym, want_mono))
+    acc.sample({'n': 4, 'tables': [refmodel.tt_str(lo, 4)], 'query': 'is_symmetric_at', 'family': 'sym4'})
+
+
+def check_requery_after_rebuild(acc, n, gates, outs):
+    """Ask for the table, rebuild the last gate under the same label with another type, ask again."""
+    from cirbo.core.circuit import gate as G
+
+    labs = space.labels(n, len(gates))
+    last = labs[-1]
+    t0, ops = gates[-1]
+    c = space.build(n, gates, outs)
+    try:
+        c.get_truth_table()
+        c.get_gates_truth_table()
+    except Exception:  # noqa: BLE001
+        return
+    for t2 in refmodel.ALL_TYPES:
+        ar2 = 1 if t2 in refmodel.UNARY else 0 if t2 in refmodel.CONST else 2
+        if t2 == t0 or (ar2 != len(ops) and not (t2 in refmodel.SYM and len(ops) >= 2)):
+            continue
+        acc.transitions += 1
+        case = lambda: {'family': 'rebuild', 'spec': space.spec_json(n, gates, outs), 'new_type': t2}  # noqa: E731
+        try:
+            c.set_outputs([])
+            c.remove_gate(last)
+            c.emplace_gate(last, getattr(G, t2), tuple(labs[o] for o in ops))
+            c.set_outputs([labs[o] for o in outs])
+            tt = c.get_truth_table()
+        except Exception as e:  # noqa: BLE001
+            acc.violation(f'Circuit.get_truth_table/raises-after-rebuild-{type(e).__name__}', case, repr(e))
+            return
+        g2 = gates[:-1] + ((t2, ops),)
+        want = space.spec_net(n, g2, outs).out_tables()
+        if [refmodel.tt_from_rows(r) for r in tt] != want:
+            acc.violation('Circuit.get_truth_table/stale-after-gate-rebuilt-under-same-label', case, '')
+            return
+        gates = g2
+        t0 = t2
+
+
 def plan(tier):
     t = [{'kind': 'helpers'}, {'kind': 'wrappers'}, {'kind': 'identity'}]
     shapes = [(0, 1), (0, 2), (1, 1), (1, 2), (2, 1), (2, 2), (3, 1), (1, 3)]
@@ -433,6 +504,8 @@ def plan(tier):
         for tk in space.tasks(n, k, space.FULL, 1):
             tk.update(kind='circuits')
             t.append(tk)
+    for lo in range(0, 65536, 2048):
+        t.append({'kind': 'sym4', 'lo': lo, 'hi': lo + 2048})
     for n, m in [(1, 1), (2, 1), (1, 2)] + ([(2, 2), (3, 1)] if tier == 'thorough' else []):
         total = (3 ** (1 << n)) ** m
         step = 81
@@ -445,7 +518,7 @@ def describe(tier):
     return {
         'rule': 'funcs: every function table for the listed (n,m) in 7 representations (TruthTable from bools / strings, PyFunction from a '
         'list callable with and without output_size and from a 0/1-integer-valued callable, PyFunction.from_positional, Circuit as mux tree); circuits: every circuit of '
-        'F(n,2,FULL) with outputs (last gate, first gate, first input) as its own function; identity: callables returning their argument list; every '
+        'F(n,2,FULL) with outputs (last gate, first gate, first input) as its own function; identity: callables returning their argument list; sym4: all 65536 four-input functions for the symmetry/constancy/monotonicity queries; rebuild: table queried, last gate rebuilt under the same label with every other type, queried again; every '
         'protocol query with every index argument, both inverse values, every non-empty output subset for find_negations; answers '
         'compared with definitions computed from the table and across representations. models: every {0,1,*} table x every completion '
         '(check, check_at, get_model_truth_table, define; PyFunctionModel also from callables that hand out lists they keep; the model must be unchanged afterwards). wrappers: from_int_unary/binary_func widths<=3, both endiannesses, 5 '
@@ -473,6 +546,8 @@ def run_task(task, acc):
         return check_identity_callable(acc)
     if k == 'models':
         return check_models(acc, task['n'], task['m'], task['lo'], task['hi'])
+    if k == 'sym4':
+        return check_sym4(acc, task['lo'], task['hi'])
     if k == 'funcs':
         n, m = task['n'], task['m']
         per = 1 << (1 << n)
@@ -493,6 +568,7 @@ def run_task(task, acc):
             ts = net.out_tables()
             c = space.build(n, gates, outs)
             check_function(acc, ts, n, {'Circuit': c}, 'E1-circuit')
+            check_requery_after_rebuild(acc, n, gates, outs)
         acc.sample({'n': n, 'family': 'E1-circuit', 'spec': space.spec_json(n, gates, outs)})
 
 
@@ -512,6 +588,12 @@ def replay(case, acc):
         return check_models(acc, n, m, i, i + 1)
     if case.get('family') == 'identity-callable':
         return check_identity_callable(acc)
+    if case.get('family') == 'sym4':
+        t = refmodel.tt_from_rows([ch == '1' for ch in case['tables'][0]])
+        return check_sym4(acc, t, t + 1)
+    if case.get('family') == 'rebuild':
+        n, gates, outs = space.spec_from_json(case['spec'])
+        return check_requery_after_rebuild(acc, n, gates, outs)
     n = case['n']
     ts = [refmodel.tt_from_rows([ch == '1' for ch in s]) for s in case['tables']]
     check_function(acc, ts, n, representations(ts, n), case.get('family', 'table'))
